@@ -53,8 +53,11 @@ def setup():
     # seams
     runner_module.TestRunner.run_test_task = _run_test_task
     node_module.door = ModelDoor
-    worker_module.remote.wait_for_login = lambda *a, **k: types.SimpleNamespace(
-        cmd_output=lambda *a, **k: "", close=lambda: None)
+    def wait_for_login(client, host, port, *args, **kwargs):
+        # sessions are tagged with the end point they were opened to (C08: the right worker's environment)
+        return types.SimpleNamespace(cmd_output=lambda *a, **k: "", close=lambda: None, endpoint=f"{host}:{port}")
+
+    worker_module.remote.wait_for_login = wait_for_login
     runner_module.SpawnerDispatcher = lambda *a, **k: _AnySpawner()
     TestWorker.start = lambda self: True
     TestGraph.visualize = lambda self, *a, **k: None
@@ -184,6 +187,7 @@ class ModelDoor:
         worker = params.get("nets")
         requests = state_requests(params, action)
         sim.log("door", worker=worker, action=action, name=params.get("name"),
+                endpoint=getattr(session, "endpoint", None),
                 requests=[dict(r, key=list(state_key(r)), present=sim.pools.present_for_scan(worker, r))
                           for r in requests])
         if action == "check":
@@ -302,12 +306,16 @@ async def _run_test_task(runner, node):
                 missing = True
         availability.append(dict(request, key=list(state_key(request)), source=source))
     has_unknown = any(r.get("status") == "UNKNOWN" for r in node.results)
+    endpoint = None
+    if params.get("nets_spawner") == "remote" and worker is not None:
+        # the real run_test_task hands the worker's session to the remote spawner
+        endpoint = getattr(worker.get_session(), "endpoint", None)
     event = sim.log(
         "start", worker=wid, name=name, uid=uid, ident=ident, attempt=attempt, prefix=node.prefix,
         params=snapshot, gets=availability, sets=[dict(r, key=list(state_key(r))) for r in sets],
         flat=node.is_flat(), clones=len(node.cloned_nodes), has_unknown=has_unknown,
         object_root=params.get("object_root"), node_type=params.get("type"),
-        node_worker_in_name=wid in name if wid else None,
+        node_worker_in_name=wid in name if wid else None, endpoint=endpoint,
     )
     duration = sim.duration_for(ident, attempt)
     task = asyncio.current_task()
